@@ -4,13 +4,17 @@ import vlib
 sys.path.insert(0, os.path.join(vlib.VERIF, "harness", "py"))
 import routing_check as rc
 import routing_gen as rg
+import routing_expire as rx
 
 MLS = ("routing",)
-HARNESSES = ()
+HARNESSES = (("routing_h", []),)
 THEOREMS = ["C09_ledger", "C09_only_addressee", "C09_only_addressee_any_state", "C09_refused", "C09_at_most_one",
             "C09_no_reply_exactly_once_disconnect", "C09_no_reply_exactly_once_timeout", "C09_no_reply_only_for_open_calls",
             "C09_no_slot_for_no_reply_flag", "C09_refused_call_leaves_no_slot", "C09_limit", "C09_limit_refuses",
-            "C09_no_reply_refuted"]
+            "C09_no_reply_refuted",
+            "C09_expiry_walk", "C09_expiry_not_early", "C09_expiry_when_due", "C09_expiry_timer_interval", "C09_expiry_timer_armed",
+            "C09_expiry_at_most_once", "C09_expiry_removed_never_expires", "C09_check_timeout_due", "C09_check_timeout_not_early",
+            "C09_check_timeout_clock_backward", "C09_expiry_test_agrees"]
 
 NONTRIVIAL = {"reply-delivered", "reply-refused", "noreply-disconnect", "noreply-timeout", "limit-refused", "duplicate-serial-refused",
               "fd-refused", "call-or-signal-with-rserial-delivered"}
@@ -43,6 +47,7 @@ def run(ctx):
     r = rc.run_check(ctx, "C09", cases, rc.C09_CODES, NONTRIVIAL,
                      "correspondence harness/py/routing_impl.py (dbus-daemon, restrictive policy) vs Routing.step (extracted)")
     cases = r["cases"]
+    xcov = rx.run_expire_check(ctx, "C09", 4000 if tier == "quick" else 200000)
     samples = []
     for i in range(0, len(cases), max(1, len(cases) // 10)):
         if r["itoks"][i] is not None:
@@ -59,7 +64,7 @@ def run(ctx):
                 "or duplicate-serial refusal; distinct = distinct (configuration, event list)" % (rg.TIMEOUT, rg.TICK_PART, rg.TICK_FULL, len([c for c in rg.scenarios() if c[1][0] == 1])),
         "samples": samples[:10], "input_distribution": r["dist"], "traces_validated_against_impl": len(cases) - r["tainted"],
         "steps_compared": r["steps"], "recipients_stalled_until_queue_full": r["stalls"], "disagreements_checked": r["disagreements"], "timing_unusable": r["tainted"],
-        "illformed_histories": r["illformed"], "exhaustive": False,
+        "illformed_histories": r["illformed"], "exhaustive": False, "expiry_machinery": xcov,
         "explanation": "theorems: for every history the model's pending-reply table equals the ledger of open calls read off the observable trace "
                        "(on histories without fds / reply-serial-carrying calls), hence only-addressee, at-most-once, NoReply-exactly-once, no slot for "
                        "NO_REPLY, limit; correspondence: real dbus-daemon = model step by step on every generated history; the trace oracle "
